@@ -239,10 +239,38 @@ def h_invalid_value(ctx, which, side):
     ctx.fail(f"{which}:invalid-value-surfaces-as-compilation-error")
 
 
+def h_zero_loss_param(ctx, via):
+    """a Parameter given as loss= whose value is 0 at construction is still part of the circuit"""
+    lw = ctx.lw
+    l2 = ctx.real("l2", 0, 1)
+    ctx.assume(l2 > 0)
+    r = ctx.real("r", 0, 1)
+    phi = ctx.angle("phi")
+    pl = lw.Parameter(0)
+
+    def build(loss):
+        c = lw.Circuit(2)
+        if via == "bs":
+            c.bs(0, reflectivity=r, loss=loss)
+        elif via == "ps":
+            c.ps(1, phi, loss=loss)
+            c.bs(0, reflectivity=r)
+        else:
+            c.bs(0, reflectivity=r)
+            c.loss(0, loss)
+        return c
+    c = build(pl)
+    ctx.check(any(p is pl for p in c.get_all_params()), f"{via}:zero-valued-loss-parameter-is-listed")
+    ctx.check_eq(c.U, build(0).U, f"{via}:zero-loss-parameter:U-at-value-zero")
+    pl.set(l2)
+    ctx.check_eq(c.U, build(l2).U, f"{via}:zero-loss-parameter:U-follows-the-new-value")
+
+
 def harnesses(tier):
     return [
         ("bounds-step", h_bounds_step, bounds_cases(tier)),
         ("live", h_live, live_cases(tier)),
         ("live.raw", h_live, [c for c in live_cases(tier) if c["where"] in ("plain", "group")], dict(raw=True)),
+        ("zero-loss-parameter", h_zero_loss_param, [dict(via=v) for v in ("bs", "ps", "loss")]),
         ("invalid", h_invalid_value, [dict(which=w, side=s) for w in ("bs", "loss", "bs-loss") for s in ("below", "above")]),
     ]
